@@ -9,5 +9,5 @@ cp -r /repo/src "$D/repo/src"
 sed -i "$e" "$D/repo/$f"
 if diff -q "/repo/$f" "$D/repo/$f" >/dev/null; then echo "MUTANT DID NOT CHANGE THE FILE" >&2; exit 9; fi
 diff "/repo/$f" "$D/repo/$f" | head -6
-PV_REPO="$D/repo" PYTHONPATH="$D/repo/src" "$@"
+PV_REPO="$D/repo" PYTHONPATH="$D/repo/src" PV_EVIDENCE_DIR="$D/evidence" PV_REPLAY_DIR="$D/replays" "$@"
 echo "exit=$?"
